@@ -1,0 +1,38 @@
+//go:build verif
+
+package patch
+
+// Contracts for the amd64 jump emitters (checked by /verif/bin/govc; comment-only file,
+// compiled only with -tags verif and then empty).
+
+//@ pure func fits_rel32(from uintptr, to uintptr) bool = int64(to - from - 5) == int64(int32(to - from - 5))
+
+//@ func jmpToFunctionValue
+//@   props C15 C01 C02
+//@   assigns nothing
+//@   fresh
+//@   ensures len13: len(value) == 13
+//@   ensures nop_sentinel: x86_is_nop(value, 0)
+//@   ensures movabs_jmp: x86_is_movabs_rdx_jmp(value, 1)
+//@   ensures imm_is_to: x86_movabs_rdx_imm(value, 1) == to
+
+//@ func relative
+//@   props C15
+//@   assigns nothing
+//@   ensures fits_rel32: result ==> fits_rel32(from, to)
+
+//@ func jmpToOriginFunctionValue
+//@   props C15 C03
+//@   assigns nothing
+//@   fresh
+//@   ensures form: len(value) == 5 || len(value) == 12
+//@   ensures rel_opcode: len(value) == 5 ==> x86_is_jmp_rel32(value, 0)
+//@   ensures rel_lands: len(value) == 5 ==> x86_jmp_rel32_target(from, value, 0) == to
+//@   ensures abs_form: len(value) == 12 ==> x86_is_movabs_rdx_jmp(value, 0)
+//@   ensures abs_imm: len(value) == 12 ==> x86_movabs_rdx_imm(value, 0) == to
+
+//@ func checkAlreadyPatch
+//@   props C15 C02
+//@   assigns nothing
+//@   requires nonempty: len(origin) >= 1
+//@   ensures sentinel: result == x86_is_nop(origin, 0)
